@@ -113,6 +113,26 @@ def binop_inst(op, pointee, kind, idx, tier):
                 replay=replay_spec(op, pointee, kind, idx), note='%s* %s %s(%s)' % (pointee, sign, kind, idx))
 
 
+def reversed_operands_inst(tier):
+    """n + p with the tainted pointer as the *second* operand: the same operation in C.  The library refuses it at compile time
+    (static_assert in the value branch of the + operator); if it ever compiles again it must satisfy the clauses of p + n."""
+    TI = cs('rlbox::tainted<int, rlbox::vsbx>')
+    TP = tstruct('long')
+    P = '((uintptr_t)((const struct %s *)$0)->data)' % TP
+    N = 'MI(((const struct %s *)$this)->data)' % TI
+    EX = '(MI(%s) + %s * MI(%d))' % (P, N, POINTEES['long'])
+    cl = [('wf', '__CPROVER_requires(V_BACKEND_WF)'),
+          ('ptr_inv', '__CPROVER_requires(%s == 0 || V_WHICH(%s) != -1)' % (P, P)),
+          ('null_aborts', '__CPROVER_ensures(%s != 0)' % P),
+          ('inside', '__CPROVER_ensures(%s != 0 ==> V_IN_MI(V_WHICH(%s), %s))' % (P, P, EX)),
+          ('exact_with_the_sandbox_stride', '__CPROVER_ensures(MI((uintptr_t)$ret.data) == %s)' % EX),
+          ('frame', '__CPROVER_assigns()')]
+    h = harness_common('long') + '  struct %s n; int in_n = n.data; g_noabort = 0;\n  struct %s r = $ROOT((void *)&n, &p);\n' % (TI, TP)
+    return Inst('c05_int_plus_pointer', 'tainted<int, vsbx>& n, tainted<long*, vsbx>& p', 'n + p;', cl, h,
+                leaves=['dynamic_check', 'vsbx.impl_is_in_same_sandbox'], prop=PROP, root_name='operator+', tier=tier, pre=PRE, may_not_compile=True,
+                note='n + p; not an instance while the library rejects the expression')
+
+
 def index_inst(pointee, kind, idx, tier):
     nexp = n_expr(kind, idx)
     cl, P, EX = arith_clauses(pointee, '+', nexp, result='((uintptr_t)$ret)', null_clause=False)
@@ -175,7 +195,7 @@ def incdec_inst(form, pointee, tier):
 
 
 def units(tier):
-    insts = []
+    insts = [reversed_operands_inst(tier)]
     if tier == 'quick':
         for idx in ['int', 'unsigned int', 'long', 'unsigned long', 'signed char', 'unsigned short']:
             insts.append(binop_inst('add', 'long', 'plain', idx, tier))
